@@ -39,6 +39,13 @@ func main() {
 	tr := NewTrace(*out, *shards)
 	var stats M
 	switch fam {
+	case "selftest":
+		if err := decoderSelfTest(*scratch); err != nil {
+			fmt.Fprintln(os.Stderr, "DECODER SELF-TEST FAILED:", err)
+			os.Exit(3)
+		}
+		fmt.Println("decoder self-test ok")
+		stats = M{"cases": 0}
 	case "plan":
 		stats = famPlan(tr, *scratch, *seed, *tier, *workers)
 	case "schema":
